@@ -1,5 +1,5 @@
 (* C15 — proofs about model/JsonStream.v *)
-From Coq Require Import List NArith ZArith Bool Ascii String Lia.
+From Coq Require Import List NArith ZArith Bool Ascii String Lia DecimalString DecimalZ DecimalPos.
 From Qryn Require Import model.JsonStream.
 Import ListNotations.
 Open Scope string_scope.
@@ -1318,3 +1318,21 @@ Qed.
 
 Theorem prom_error_bytes : forall msg, parse_bytes (render (enc_prom_error msg)) = Some (doc_prom_error msg).
 Proof. intros msg. apply (parse_bytes_render (doc_prom_error msg)). reflexivity. Qed.
+
+(* ------------------------------------------------------------------------------------------ *)
+(* timestamps of log lines are printed with %d: reading the decimal text back gives the int64 *)
+Theorem fmt_d_lossless : forall z,
+  match NilZero.int_of_string (fmt_d z) with Some d => Z.of_int d = z | None => False end.
+Proof.
+  intros z. unfold fmt_d. rewrite NilZero.isi.
+  - apply DecimalZ.of_to.
+  - destruct z; cbn [Z.to_int]; try discriminate. intros [= E]. now apply (Unsigned.to_uint_nonnil p).
+  - destruct z; cbn [Z.to_int]; try discriminate. intros [= E]. now apply (Unsigned.to_uint_nonnil p).
+Qed.
+
+(* without contiguity a fingerprint can get two objects (what an upstream stage that regroups rows in
+   windows, ResponseOptimizerPlanner, can cause) *)
+Definition mk_fp (f : N) : entry :=
+  {| e_fp := f; e_lbls := []; e_ts := 0; e_msg := ""; e_tsf := "0"; e_val := "0"; e_err := ENone |}.
+Lemma heads_split_example : ~ NoDup (heads [mk_fp 1; mk_fp 2; mk_fp 1]).
+Proof. vm_compute. intros H. inversion H as [|x l Hx Hl]; subst. apply Hx. right. now left. Qed.
